@@ -10,7 +10,7 @@ import "fmt"
 
 func init() {
 	register("C08", func(c *Ctx) error {
-		o := GenOpt{MinStates: 2, MaxStates: 6, AutoPct: 20, MultiPct: 25, MinCalls: 1,
+		o := GenOpt{MinStates: 2, MaxStates: 6, AutoPct: 20, MultiPct: 25, MinCalls: 1, SuffixPct: 25,
 			MaxCalls: 6, Handlers: true, VetoPct: 10, NestedPct: 10, AddErr: true, Checks: true}
 		var pending []*HistInput
 		var pendingKind []string
